@@ -352,7 +352,7 @@ def l3(ctx):
     t = tk[0]
     tok_lits = set()
     for c in t.calls:
-        if c.callee and c.callee.name == "starts_with" and c.args[1]["k"] == "const":
+        if c.callee and c.callee.name in ("starts_with", "strip_prefix", "split_once", "eq") and len(c.args) > 1 and c.args[1]["k"] == "const" and "text" in c.args[1]:
             tok_lits.add(re.sub(r"^['\"]|['\"]$", "", c.args[1]["text"]))
     ctx.check(tok_lits >= {"(", ")", "[", "]", ":=", "?", "$"}, "tokenizer-literals", "the tokenizer dispatches on %s" % sorted(tok_lits), "the tokenizer no longer dispatches on all of ( ) [ ] := ? $ (has %s)" % sorted(tok_lits), where_of(t))
     mp = [b for b in crate.by_name.get("parse", []) if "MultiPattern" in (b.impl_self or "") and (b.file or "").endswith("parse.rs")]
